@@ -493,6 +493,32 @@ def f0():
 """ % s}, ["h", "h2", "g"]
 
 
+def T_functools_wrappers(s):
+    """helper functions wrapped by functools.lru_cache / functools.cache (objects that are not plain functions), called and
+    referenced by name"""
+    return {"main": HEAD + """
+import functools
+
+@functools.lru_cache(maxsize=None)
+def h():
+    return term('h#%(h)d')
+
+@functools.cache
+def h2(x):
+    return term('h2#%(h2)d', x)
+
+@functools.lru_cache
+def h3():
+    return term('h3#%(h3)d')
+
+def f1():
+    return term('f1', h(), h2(3), hof(h3))
+
+def f0():
+    return dds.keep('/x/p', f1)
+""" % s}, ["h", "h2", "h3"]
+
+
 # explicit refusals of dds (DDSException with one of these codes): the construct is outside the supported subset
 REFUSALS = ("TYPE_NOT_SUPPORTED", "CONSTRUCT_NOT_SUPPORTED", "UNSUPPORTED_CALLABLE_TYPE", "AUTHORIZED_TYPE_NOT_UNDERSTOOD")
 
@@ -501,7 +527,7 @@ TEMPLATES = [T_class_fresh, T_class_object_first, T_inheritance, T_staticmethod,
              T_class_attribute_from_variable, T_init_calls_function, T_from_import_variable, T_class_in_submodule,
              T_generator_and_conditional_expression, T_function_as_default_argument, T_reexport_and_relative_imports,
              T_object_attribute_holds_object, T_variables_of_library_types, T_argument_expressions,
-             T_references_through_attributes, T_calls_in_arguments]
+             T_references_through_attributes, T_calls_in_arguments, T_functools_wrappers]
 # T_module_level_lambda is not in the list: a lambda bound to a module variable is refused with an uncoded DDSException
 # ('Could not find call node'): outside the supported subset (the test-suite marks lambdas under dds.eval as not implemented)
 
